@@ -6,8 +6,11 @@ theorems lean/LenaModel/Props/C07.lean (helper lemmas lean/LenaModel/Lemmas/C07.
 
 Cases are JSON.  A dictionary is a JSON object (a key "#n" stands for the integer key n); a leaf is a JSON scalar or
 list, or a marker object {"$": kind, "v": …} for what JSON cannot express: tuple, set, frozenset, float, bytes, an opaque
-object with value equality, a dict subclass.  `_build` turns a case value into new, tree-shaped Python objects for every
-call of the real code.  For the model a case is translated to slot vectors over the sorted key alphabet of the case, a
+object with value equality; a marker {"$": kind, "v": {…}} is a dictionary of a dict subclass (OrderedDict, defaultdict, a
+subclass with __missing__, lena.context.Context, a plain subclass) and {"$": "shared", "id": n, "v": …} one object that
+occurs at several places of the arguments (the "dressing": by value a dressed dictionary is the dictionary it dresses).
+`_build` turns a case value into new Python objects for every call of the real code (mode "real") or into its bare value
+(mode "plain", for the judges).  For the model a case is translated to slot vectors over the sorted key alphabet of the case, a
 leaf to the number of its class under Python `==` (so False, 0 and 0.0, True and 1, {1} and frozenset({1}) coincide: the
 four functions observe leaves only through `==`, truthiness and isinstance(., dict)).
 """
@@ -22,7 +25,8 @@ PID = "C07"
 TITLE = "Nested-dictionary algebra: intersection, difference and recursive update"
 LEAN_MODULES = ["LenaModel.Props.C07"]
 LEAN_SOURCES = ["LenaModel/Model/Val.lean", "LenaModel/Model/C07.lean", "LenaModel/Model/C07Tok.lean",
-                "LenaModel/Model/C07Ext.lean", "LenaModel/Model/C07Mut.lean", "LenaModel/Lemmas/C07Ext.lean",
+                "LenaModel/Model/C07Ext.lean", "LenaModel/Model/C07Mut.lean", "LenaModel/Model/C07Share.lean",
+                "LenaModel/Lemmas/C07Share.lean", "LenaModel/Lemmas/C07Ext.lean",
                 "LenaModel/Lemmas/C07Mut.lean",
                 "LenaModel/Lemmas/C07Tok.lean", "LenaModel/Lemmas/C07.lean",
                 "LenaModel/Lemmas/C07Update.lean", "LenaModel/Lemmas/C07Nested.lean", "LenaModel/Lemmas/C07Level.lean",
@@ -90,6 +94,17 @@ THEOREMS = [
     "Lena.C07.update_nested_keeps",
     "Lena.C07.update_nested_other_kept",
     "Lena.C07.update_nested_typeError_iff",
+    # arguments with shared objects (one object reachable twice): Model/C07Share.lean
+    "Lena.C07.inter_stores_hit_one_place",
+    "Lena.C07.inter_object_level",
+    "Lena.C07.inter_shared_value",
+    "Lena.C07.inter_shared_is_copy",
+    "Lena.C07.deepcopy_memo_value",
+    "Lena.C07.deepcopy_memo_sharing",
+    "Lena.C07.deepcopy_memo_fresh",
+    "Lena.C07.deepcopy_root_once",
+    "Lena.C07.store_root_once",
+    "Lena.C07.store_elsewhere",
 ]
 # true by unfolding, model-to-model glue, vocabulary-only or encoding lemmas: audited, not counted as obligations of C07
 AUX_THEOREMS = [
@@ -132,6 +147,11 @@ TRUSTED = [
     "the level convention of the code's docstrings and were written by the same author: they are not an independent "
     "oracle for what 'contained at level 1' ought to mean (inter_level0 / inter_level1_key / inter_level_step say what the "
     "levels do without that order)",
+    "arguments with shared objects: Model/C07Share.lean transcribes intersection with the memoising copy.deepcopy (identities "
+    "renamed injectively in the order of first occurrence) on values whose identities may repeat; validated by comparing, for "
+    "every generated argument with shared objects, which places of copy.deepcopy(d1) and of the real intersection hold the "
+    "same object.  That every store of intersection goes into the `res` of the running call — the root of a copy made by that "
+    "call — is read off the code; deepcopy_root_once + store_root_once then say that such a store changes one slot only",
     "the write logs are part of the transcription: that intersection / difference contain no statement storing into an "
     "argument is read off the code; the theorems then say that every logged store goes into a new object, and the harness "
     "checks object by object that no dictionary of an argument changed",
@@ -144,13 +164,25 @@ ASSUMPTIONS = [
     "leaves have a reflexive == that copy.deepcopy preserves (the leaf type of the model has decidable equality): no NaN, no "
     "objects compared by identity — for those intersection(a, a) == {} on the real code "
     "(notes/C07_observation_leaf_equality.md, judged outside the statement)",
-    "arguments are tree-shaped and pairwise disjoint object graphs (no object reachable twice, no object shared between "
-    "arguments) when a call starts, except intersection(a, a) / difference(a, a) which are exercised; the token and write-log "
-    "models allocate per occurrence, whereas copy.deepcopy memoises.  After update_recursively(d, other) this is no longer "
+    "the token and write-log models (Model/C07Tok.lean, C07Mut.lean) assume tree-shaped, pairwise disjoint arguments (they "
+    "allocate per occurrence).  Arguments in which one object is reachable twice, or which share objects with each other, "
+    "are inside the statement for intersection and difference (by value they are nested dictionaries; adversary candidate 1): "
+    "they are generated (exhaustively {a: s, b: s} against the depth-2 universe, sampled up to depth 6), judged by the oracle "
+    "by value, and compared with the sharing model (Model/C07Share.lean, memoising deepcopy).  For the d of "
+    "update_recursively / update_nested an object reachable twice is outside the statement: an in-place update of an object "
+    "changes every place that shares it, so 'keeps every item that other does not overwrite' has no reading by value there "
+    "(d is built tree-shaped; `other` may share).  After update_recursively(d, other) this is no longer "
     "true of (d, other) — sub-dictionaries of other are stored in d uncopied, by design — and the `seq` cases follow "
     "successive calls on one d through exactly that: the model predicts, and the real objects confirm, that a later update "
     "can write into an earlier `other` (reported in the evidence labels, not judged)",
-    "dictionaries are plain dict or a subclass with dict semantics; keys are strings or integers; `level` is an int",
+    "a dictionary is what isinstance(., dict) says (the test of the code under test): plain dict, collections.OrderedDict, "
+    "collections.defaultdict (reading a missing key with d[key] inserts it), a subclass whose __missing__ returns a value, "
+    "lena.context.Context, a plain subclass — at any place of any argument (adversary candidates 2, 3).  The model has one "
+    "kind of dictionary; the types of the dictionaries in a result are not compared (the statement speaks of values).  "
+    "Equal dictionaries have dict's order-insensitive ==: OrderedDicts of a case are built with sorted keys, because "
+    "OrderedDict == OrderedDict depends on the insertion order (intersection(a, b, level=0) of two OrderedDicts with the same "
+    "items in different order is {}; judged outside the statement like a leaf whose == is not value equality).  Keys are "
+    "strings or integers; `level` is an int",
     "copy.deepcopy is the identity on values (value model) and allocates new objects for every mutable object (token model); "
     "an assignment `x[key] = v` / `del x[key]` changes the object x only (write-log model)",
     "identities are compared in the correspondence (not in the oracle) because the theorems inter_is_copy, diff_objects, "
@@ -162,7 +194,14 @@ ASSUMPTIONS = [
     "str.split('.') is trusted: str_to_dict is modelled from its parts on; which strings are malformed beyond that is C08's",
     "output.changed holds hashable scalars (as documented: a boolean) in the group_plots / _update_with_group cases",
 ]
-RULE = ("value domain: nested dictionaries (plain or a dict subclass) with string or integer keys; leaves 0, False, None, '', [], "
+RULE = ("value domain: nested dictionaries (plain dict, OrderedDict, defaultdict, a subclass with __missing__, lena.context.Context, "
+        "a plain subclass - at any depth of any argument in 30% of the sampled pair / tuple / update_nested / update_recursively / "
+        "sequence cases) with string or integer keys; in 25% of the sampled pairs and 20% of the tuples an item of an argument "
+        "occurs at a second place as the SAME object (and 12-15% more share equal parts between arguments); exhaustive dressed "
+        "scopes: {a: s, b: s} with one object s (all 9 s of depth 1) against every dictionary of the depth-2 universe in both "
+        "argument orders; all 36^2 pairs of the dictionaries over {a,b} of depth <= 2 with one leaf, each argument of one of the "
+        "6 dictionary types (all 36 type combinations for every first argument), every third pair with its equal parts shared; "
+        "triples with the same object twice; leaves 0, False, None, '', [], "
         "0.0, (), set(), 1, True, 'x', [1], 2, 'y', [{}], (1,), ([1],), ({'x': [1]},), {1, 2}, frozenset({1}), 1.5, "
         "1.5000000000000002, an opaque object with value equality, b'x'.  "
         "pair cases (a, b): intersection(a,b), intersection(b,a), intersection(a,a), difference(a,b), "
@@ -245,36 +284,101 @@ def _isd(v):
     return isinstance(v, dict) and "$" not in v
 
 
-def _build(v):
+class _MissingDict(dict):
+    """a dictionary subclass whose `d[key]` never raises KeyError (like collections.Counter): `__missing__` returns a
+    value and stores nothing"""
+
+    def __missing__(self, key):
+        return None
+
+    def __repr__(self):
+        return "MissingDict(%s)" % dict.__repr__(self)
+
+
+# the dictionary types of the domain ("dictionary" is what isinstance(., dict) says, as in the code under test):
+#   dictsub  a plain subclass                        ordered  collections.OrderedDict (keys always inserted in sorted order)
+#   defdict  collections.defaultdict(dict): reading a missing key with d[key] INSERTS it
+#   missing  _MissingDict: d[key] of a missing key returns None        context  lena.context.Context
+_DICT_KINDS = ("dictsub", "ordered", "defdict", "missing", "context")
+
+
+def _make_dict(kind, items):
+    import collections
+    if kind == "dictsub":
+        return _DictSub(items)
+    if kind == "ordered":
+        # (OrderedDict == OrderedDict is sensitive to the order: equal dictionaries of a case always have the same one)
+        return collections.OrderedDict(sorted(items, key=lambda kv: str(_kstr(kv[0]))))
+    if kind == "defdict":
+        return collections.defaultdict(dict, items)
+    if kind == "missing":
+        return _MissingDict(items)
+    if kind == "context":
+        from lena.context import Context
+        return Context(dict(items))
+    raise ValueError(kind)
+
+
+def _kind_of(v):
+    """the marker kind of a dictionary object (None for a plain dict)"""
+    import collections
+    if type(v) is dict:
+        return None
+    if isinstance(v, _DictSub):
+        return "dictsub"
+    if isinstance(v, _MissingDict):
+        return "missing"
+    if isinstance(v, collections.OrderedDict):
+        return "ordered"
+    if isinstance(v, collections.defaultdict):
+        return "defdict"
+    if type(v).__name__ == "Context":
+        return "context"
+    return "dictsub"
+
+
+def _build(v, mode="plain", memo=None):
+    """the Python value of a case value.  mode "real": what the code under test is called with (dictionary subclasses,
+    one object per {"$": "shared", "id": n} within one call of _build); "tree": the same without sharing; "plain": plain
+    dictionaries, no sharing — the value, which is all that the judges (oracle, references, encoders) look at"""
+    if memo is None:
+        memo = {}
     if isinstance(v, dict):
         kind = v.get("$")
         if kind is None:
-            return {_bkey(k): _build(x) for k, x in v.items()}
+            return {_bkey(k): _build(x, mode, memo) for k, x in v.items()}
+        if kind == "shared":
+            if mode != "real":
+                return _build(v["v"], mode, memo)
+            if v["id"] not in memo:
+                memo[v["id"]] = _build(v["v"], mode, memo)
+            return memo[v["id"]]
         if kind == "tuple":
-            return tuple(_build(x) for x in v["v"])
+            return tuple(_build(x, mode, memo) for x in v["v"])
         if kind == "set":
-            return set(_build(x) for x in v["v"])
+            return set(_build(x, mode, memo) for x in v["v"])
         if kind == "frozenset":
-            return frozenset(_build(x) for x in v["v"])
+            return frozenset(_build(x, mode, memo) for x in v["v"])
         if kind == "float":
             return float(v["v"])
         if kind == "obj":
             return _Obj(v["v"])
         if kind == "bytes":
             return v["v"].encode("ascii")
-        if kind == "dictsub":
-            return _DictSub((_bkey(k), _build(x)) for k, x in v["v"].items())
+        if kind in _DICT_KINDS:
+            items = [(_bkey(k), _build(x, mode, memo)) for k, x in v["v"].items()]
+            return dict(items) if mode == "plain" else _make_dict(kind, items)
         raise ValueError(v)
     if isinstance(v, list):
-        return [_build(x) for x in v]
+        return [_build(x, mode, memo) for x in v]
     return v
 
 
 def _unbuild(v):
-    if isinstance(v, _DictSub):
-        return {"$": "dictsub", "v": {_kstr(k): _unbuild(x) for k, x in v.items()}}
     if isinstance(v, dict):
-        return {_kstr(k): _unbuild(x) for k, x in v.items()}
+        kind = _kind_of(v)
+        items = {_kstr(k): _unbuild(x) for k, x in v.items()}
+        return items if kind is None else {"$": kind, "v": items}
     if isinstance(v, list):
         return [_unbuild(x) for x in v]
     if isinstance(v, tuple):
@@ -288,6 +392,42 @@ def _unbuild(v):
     if isinstance(v, bytes):
         return {"$": "bytes", "v": v.decode("ascii")}
     return v
+
+
+def _strip(v):
+    """a case value without its dressing (dictionary subclasses, shared objects): the bare value, in case form"""
+    if isinstance(v, dict):
+        kind = v.get("$")
+        if kind is None:
+            return {k: _strip(x) for k, x in v.items()}
+        if kind == "shared" or kind in _DICT_KINDS:
+            return _strip(v["v"])
+        if kind == "tuple":
+            return {"$": "tuple", "v": [_strip(x) for x in v["v"]]}
+        return v
+    if isinstance(v, list):
+        return [_strip(x) for x in v]
+    return v
+
+
+def _dressing(v, acc=None):
+    """which dressings a case value carries: the set of marker kinds among _DICT_KINDS + "shared" """
+    if acc is None:
+        acc = set()
+    if isinstance(v, dict):
+        kind = v.get("$")
+        if kind is None:
+            for x in v.values():
+                _dressing(x, acc)
+        elif kind == "shared" or kind in _DICT_KINDS:
+            acc.add(kind)
+            _dressing(v["v"], acc)
+        elif kind == "tuple":
+            _dressing(v["v"], acc)
+    elif isinstance(v, list):
+        for x in v:
+            _dressing(x, acc)
+    return acc
 
 
 FALSY = [0, False, None, "", [], _F(0.0), _T(), {"$": "set", "v": []}]
@@ -418,6 +558,118 @@ def _mutate_deep(rng, d, keys, leaves):
     return d
 
 
+# ---- dressing: dictionary subclasses and shared objects -------------------------------------------------------------
+# By value a dressed dictionary is the dictionary it dresses (the model and the judges see the value only); the code under
+# test is called with the dressed objects.  Dressing is the last step of a generator: the helpers above (_mutate, _paths,
+# _isd …) treat a marker as a leaf.
+
+def _dress_kinds(rng, v, p=0.5, kinds=_DICT_KINDS):
+    """v with each of its dictionaries (those that are context dictionaries, not those inside a list) turned into a
+    dictionary subclass with probability p"""
+    if not _isd(v):
+        return v
+    out = {k: _dress_kinds(rng, x, p, kinds) for k, x in v.items()}
+    if rng.random() < p:
+        return {"$": rng.choice(kinds), "v": out}
+    return out
+
+
+def _dress_all(v, kind):
+    """every dictionary of v as the subclass `kind` (None: as it is)"""
+    if kind is None or not _isd(v):
+        return v
+    return {"$": kind, "v": {k: _dress_all(x, kind) for k, x in v.items()}}
+
+
+def _inner(v):
+    """the items of a (possibly kind-dressed) dictionary in case form, else None"""
+    if _isd(v):
+        return v
+    if isinstance(v, dict) and v.get("$") in _DICT_KINDS:
+        return v["v"]
+    return None
+
+
+def _shareable(v):
+    """a mutable object: a dictionary, a list, a set, an opaque object"""
+    return _inner(v) is not None or isinstance(v, list) or (isinstance(v, dict) and v.get("$") in ("set", "obj"))
+
+
+def _share(rng, vals, p_group=0.75, roots=False):
+    """the case values `vals` with groups of equal mutable sub-values (equal including their dressing) made ONE object:
+    every occurrence becomes {"$": "shared", "id": n, "v": value}.  Within one argument (an object reachable twice: the
+    argument is a DAG, not a tree) and across arguments (d1["k"] is d2["k"])."""
+    count = {}
+
+    def scan(v, root):
+        if _shareable(v) and not (root and not roots):
+            key = jdump(v)
+            count[key] = count.get(key, 0) + 1
+        items = _inner(v)
+        if items is not None:
+            for x in items.values():
+                scan(x, False)
+
+    for v in vals:
+        scan(v, True)
+    chosen = {}
+    for key in sorted(k for k, n in count.items() if n >= 2):
+        if rng.random() < p_group:
+            chosen[key] = len(chosen)
+
+    def rebuild(v, root):
+        key = jdump(v) if _shareable(v) and not (root and not roots) else None
+        items = _inner(v)
+        if items is not None:
+            new = {k: rebuild(x, False) for k, x in items.items()}
+            out = new if _isd(v) else {"$": v["$"], "v": new}
+        else:
+            out = v
+        if key is not None and key in chosen:
+            return {"$": "shared", "id": chosen[key], "v": out}
+        return out
+
+    return [rebuild(v, True) for v in vals], bool(chosen)
+
+
+def _node_paths(v, pre=()):
+    """paths of all dictionary nodes of an undressed case value (the root: ())"""
+    out = [pre]
+    for k, x in v.items():
+        if _isd(x):
+            out.extend(_node_paths(x, pre + (k,)))
+    return out
+
+
+def _plant(rng, v, keys):
+    """a copy of the undressed dictionary v in which some item (preferably a sub-dictionary) occurs at a second place;
+    returns (v', path of the item, path of its twin) or (v, None, None) when there is no room"""
+    v = copy.deepcopy(v)
+    items = [p for p in _paths(v)]
+    dicts_ = [p for p in items if _isd(get_path(v, p))]
+    src_pool = dicts_ if dicts_ and rng.random() < 0.85 else [p for p in items if _shareable(get_path(v, p))]
+    if not src_pool:
+        return v, None, None
+    for _ in range(8):
+        p = rng.choice(src_pool)
+        q = rng.choice(_node_paths(v))
+        t = q + (rng.choice(keys),)
+        # not onto the item itself or one of its ancestors, not inside the item
+        if p[:len(t)] == t or t[:len(p)] == p:
+            continue
+        get_path(v, q)[t[-1]] = copy.deepcopy(get_path(v, p))
+        return v, p, t
+    return v, None, None
+
+
+def _set_path(v, p, x):
+    get_path(v, p[:-1])[p[-1]] = x
+
+
+KIND_ROTA = (None,) + _DICT_KINDS
+FLOW_KINDS = ("context", "context", "ordered", "dictsub", "defdict")
+
+
 def _gen(ctx, n_exh_leaves, n_pair, n_multi, n_nested, n_bad, n_ext):
     """lazy stream of cases; every stream has its own generator seeded from ctx.rng"""
     top = ctx.rng
@@ -484,6 +736,39 @@ def _gen(ctx, n_exh_leaves, n_pair, n_multi, n_nested, n_bad, n_ext):
         yield {"op": "cyc", "key": "a", "d": {"b": 2}, "cycle": 1, "tail": 0}
         yield {"op": "cyc", "key": "a", "d": {"b": 2}, "cycle": 2, "tail": 2}
 
+    def exh_dressed():
+        """the two dressings of a dictionary that its value does not show, systematically over small universes"""
+        # (1) {a: s, b: s} whose two items are ONE object s (all 9 s of depth 1), against every dictionary of the depth-2
+        # universe, as first and as second argument
+        for si, s_ in enumerate(u1):
+            sh = {"$": "shared", "id": 0, "v": s_}
+            a = {"a": sh, "b": sh}
+            for j, b in enumerate(u2):
+                yield {"op": "pair", "a": a, "b": b, "levels": exh_levels, "paths": False, "idem": j % 9 == si}
+                yield {"op": "pair", "a": b, "b": a, "levels": exh_levels, "paths": False, "idem": False}
+        # (2) all pairs of the 36 dictionaries over a,b of depth <= 2 with one leaf, every dictionary of an argument of one
+        # type: all 36 combinations (plain dict, 5 subclasses) x (the same) for every first argument, rotating with the
+        # seed over the second; every third pair with its equal parts shared between the two arguments
+        uk = _universe(["a", "b"], [f], 2)
+        rot = top.randrange(36)
+        for i, a in enumerate(uk):
+            for j, b in enumerate(uk):
+                n = j + rot
+                a2, b2 = _dress_all(a, KIND_ROTA[n % 6]), _dress_all(b, KIND_ROTA[(n // 6 + i) % 6])
+                shared = False
+                if (i + j) % 3 == 0:
+                    (a2, b2), shared = _share(top, [a2, b2], p_group=1.0)
+                yield {"op": "pair", "a": a2, "b": b2, "levels": exh_levels, "paths": not shared and (i + j) % 4 == 1,
+                       "idem": j == (i * 5) % len(uk)}
+        # (3) intersection of three arguments of which two are the same object / share their items
+        for a in u1:
+            for b in u1:
+                sh = {"$": "shared", "id": 0, "v": a}
+                for lv in (-1, 0, 1):
+                    yield {"op": "multi", "ds": [sh, b, sh], "level": lv, "dag": True}
+                yield {"op": "multi", "ds": [{"a": sh, "b": sh}, {"a": b, "b": a}, {"a": a, "b": b}], "level": -1, "dag": True}
+                yield {"op": "multi", "ds": [{"a": sh, "b": sh}, {"a": b, "b": a}, {"a": a, "b": b}], "level": 2, "dag": True}
+
     def pairs():
         rng = __import__("random").Random(seeds[0])
         for _ in range(n_pair):
@@ -491,13 +776,31 @@ def _gen(ctx, n_exh_leaves, n_pair, n_multi, n_nested, n_bad, n_ext):
             leaves = PALETTE if rng.random() < 0.7 else rng.sample(PALETTE, 3)
             keys = keys3 if rng.random() < 0.85 else ["a", "#1", "#2"]         # integer keys 1, 2
             a = _rand_dict(rng, keys, depth, leaves)
+            # an item of a at a second place (the two will be ONE object: a is a DAG, not a tree)
+            p1 = p2 = None
+            if depth > 1 and rng.random() < 0.25:
+                a, p1, p2 = _plant(rng, a, keys)
             b = _mutate(rng, a, keys, leaves) if rng.random() < 0.6 else _rand_dict(rng, keys, depth, leaves)
+            if p1 is not None and _isd(get_path(a, p1)) and rng.random() < 0.6:
+                # the other argument differs from a inside the shared part, differently at its two places
+                b = copy.deepcopy(a)
+                for pp in (p1, p2):
+                    if rng.random() < 0.8:
+                        _set_path(b, pp, _mutate_deep(rng, get_path(a, p1), keys, leaves))
             if rng.random() < 0.5:
                 a, b = b, a
-            if rng.random() < 0.12:
-                # a dictionary subclass as the first argument (the result is "a dictionary or its subtype")
-                a = {"$": "dictsub", "v": a}
-            yield {"op": "pair", "a": a, "b": b, "levels": LEVELS, "paths": True}
+            if rng.random() < 0.3:
+                # dictionary subclasses, anywhere in either argument (the result is "a dictionary or its subtype")
+                which = rng.choice(["a", "b", "ab", "ab"])
+                if "a" in which:
+                    a = _dress_kinds(rng, a, rng.choice([0.3, 0.6, 1.0]))
+                if "b" in which:
+                    b = _dress_kinds(rng, b, rng.choice([0.3, 0.6, 1.0]))
+            shared = False
+            if p1 is not None or rng.random() < 0.12:
+                (a, b), shared = _share(rng, [a, b])
+            # (the token and write-log models number objects per occurrence: not compared for shared objects)
+            yield {"op": "pair", "a": a, "b": b, "levels": LEVELS, "paths": not shared}
 
     def deep_pairs():
         """narrow dictionaries of depth up to 6 (beyond the depth 3 the property names): the recursion reaches levels
@@ -510,7 +813,12 @@ def _gen(ctx, n_exh_leaves, n_pair, n_multi, n_nested, n_bad, n_ext):
             b = _mutate_deep(rng, a, keys, leaves)
             if rng.random() < 0.5:
                 a, b = b, a
-            yield {"op": "pair", "a": a, "b": b, "levels": [-1, -2, 1, 2, 4, 5, 6], "paths": rng.random() < 0.3}
+            if rng.random() < 0.25:
+                a, b = _dress_kinds(rng, a, 0.5), _dress_kinds(rng, b, 0.5)
+            shared = False
+            if rng.random() < 0.2:
+                (a, b), shared = _share(rng, [a, b])
+            yield {"op": "pair", "a": a, "b": b, "levels": [-1, -2, 1, 2, 4, 5, 6], "paths": not shared and rng.random() < 0.3}
 
     def multis():
         rng = __import__("random").Random(seeds[1])
@@ -518,8 +826,21 @@ def _gen(ctx, n_exh_leaves, n_pair, n_multi, n_nested, n_bad, n_ext):
             depth = rng.choice([1, 2, 2, 3])
             leaves = PALETTE if rng.random() < 0.5 else rng.sample(PALETTE, 3)
             keys = keys3 if rng.random() < 0.7 else ["a", "b"]
-            ds = _family(rng, keys, depth, leaves, rng.choice([2, 3, 3, 3, 4]))
-            yield {"op": "multi", "ds": ds, "level": rng.choice(LEVELS + [-1, -1, 4, -2])}
+            ds = _family(rng, keys, depth, leaves, rng.choice([2, 3, 3, 3, 4, 6]))
+            case = {"op": "multi", "level": rng.choice(LEVELS + [-1, -1, 4, -2])}
+            planted = depth > 1 and rng.random() < 0.2
+            if planted:
+                i = rng.randrange(len(ds))
+                ds[i] = _plant(rng, ds[i], keys)[0]
+            if rng.random() < 0.3:
+                ds = [_dress_kinds(rng, d, rng.choice([0.3, 0.6, 1.0])) if rng.random() < 0.7 else d for d in ds]
+            if planted or rng.random() < 0.15:
+                # shared objects within an argument and between arguments (also: the same object passed twice)
+                ds, shared = _share(rng, ds, roots=True)
+                if shared:
+                    case["dag"] = True
+            case["ds"] = ds
+            yield case
 
     def nesteds():
         rng = __import__("random").Random(seeds[2])
@@ -539,6 +860,8 @@ def _gen(ctx, n_exh_leaves, n_pair, n_multi, n_nested, n_bad, n_ext):
                 cur.pop(key, None)
             elif r < 0.85:
                 cur[key] = copy.deepcopy(rng.choice(leaves))
+            if rng.random() < 0.3:
+                d, other = _dress_kinds(rng, d, 0.5), _dress_kinds(rng, other, 0.5)
             yield {"op": "nested", "key": key, "d": d, "other": other}
 
     def bads():
@@ -581,6 +904,12 @@ def _gen(ctx, n_exh_leaves, n_pair, n_multi, n_nested, n_bad, n_ext):
             if rng.random() < (0.7 if isinstance(other, str) else 0.3):
                 case["value"] = (_rand_dict(rng, keys3, rng.choice([1, 2]), leaves) if rng.random() < 0.3
                                  else copy.deepcopy(rng.choice(leaves)))
+            if _isd(d) and (isinstance(other, str) or _isd(other)) and rng.random() < 0.35:
+                # dictionary subclasses in d, in a dictionary `other` and in a dictionary `value` (only where no error
+                # message is formatted: the representation of lena.context.Context is JSON)
+                for name in ("d", "other", "value"):
+                    if _isd(case.get(name)):
+                        case[name] = _dress_kinds(rng, case[name], rng.choice([0.4, 1.0]))
             yield case
 
     def seqs():
@@ -595,6 +924,9 @@ def _gen(ctx, n_exh_leaves, n_pair, n_multi, n_nested, n_bad, n_ext):
             for _ in range(rng.choice([1, 1, 2, 3])):
                 others.append(_mutate(rng, others[-1], keys3, leaves) if rng.random() < 0.7
                               else _rand_dict(rng, keys3, 2, leaves, p_dict=0.6))
+            if rng.random() < 0.3:
+                d = _dress_kinds(rng, d, 0.5)
+                others = [_dress_kinds(rng, o, 0.5) for o in others]
             yield {"op": "seq", "d": d, "others": others}
 
     def zips():
@@ -611,6 +943,11 @@ def _gen(ctx, n_exh_leaves, n_pair, n_multi, n_nested, n_bad, n_ext):
                 # the same Zip object combines a second tuple of values
                 case["values2"] = [_mutate(rng, v, keys, leaves) if rng.random() < 0.7 else
                                    _rand_dict(rng, keys, 2, leaves) for v in vals]
+            if rng.random() < 0.25:
+                # contexts of a flow may be dictionary subclasses (the element lena.context.Context makes them Context objects)
+                for name in ("values", "values2"):
+                    if name in case:
+                        case[name] = [_dress_kinds(rng, v, 0.6, FLOW_KINDS) for v in case[name]]
             yield case
 
     def groups():
@@ -622,7 +959,10 @@ def _gen(ctx, n_exh_leaves, n_pair, n_multi, n_nested, n_bad, n_ext):
                 # LenaSplit._get_context over branches whose static contexts are set by SetContext elements
                 yield {"op": "split", "ctxs": ctxs}
             else:
-                yield {"op": "group", "ctxs": [_with_changed(rng, c, 0.35) for c in ctxs]}
+                ctxs = [_with_changed(rng, c, 0.35) for c in ctxs]
+                if rng.random() < 0.25:
+                    ctxs = [_dress_kinds(rng, c, 0.6, FLOW_KINDS) for c in ctxs]
+                yield {"op": "group", "ctxs": ctxs}
 
     def uwgs():
         rng = __import__("random").Random(seeds[7])
@@ -655,7 +995,7 @@ def _gen(ctx, n_exh_leaves, n_pair, n_multi, n_nested, n_bad, n_ext):
             yield {"op": "uwg", "ctx": _with_changed(rng, ctx_, 0.4), "new": [_with_changed(rng, c, 0.3) for c in new],
                    "old": _with_changed(rng, copy.deepcopy(old), 0.15)}
 
-    return _interleave([exh_pairs(), exh_depth3(), exh_small(), pairs(), deep_pairs(), multis(), nesteds(), bads(), ustrs(), seqs(), zips(), groups(), uwgs()])
+    return _interleave([exh_pairs(), exh_depth3(), exh_small(), exh_dressed(), pairs(), deep_pairs(), multis(), nesteds(), bads(), ustrs(), seqs(), zips(), groups(), uwgs()])
 
 
 def gen_cases(ctx):
@@ -864,6 +1204,39 @@ def _tok_result(v, enc, idmap):
     return {"l": enc.cls(v), "t": [idmap.get(id(o), -1) for o in _mut_objs(v)]}
 
 
+def _tok_dag(v, enc, idmap, ctr):
+    """like _tok_tree for values in which one object may be reachable several times (and from several arguments: pass the
+    same idmap): an object met again has the identity it got first"""
+    if isinstance(v, dict):
+        if id(v) not in idmap:
+            idmap[id(v)] = ctr[0]
+            ctr[0] += 1
+        kv = {_kstr(k): x for k, x in v.items()}
+        return {"t": idmap[id(v)], "s": [(_tok_dag(kv[k], enc, idmap, ctr) if k in kv else None) for k in enc.keys]}
+    ts = []
+    for o in _mut_objs(v):
+        if id(o) not in idmap:
+            idmap[id(o)] = ctr[0]
+            ctr[0] += 1
+        ts.append(idmap[id(o)])
+    return {"l": enc.cls(v), "t": ts}
+
+
+def _canon_pat(t, ren=None):
+    """the sharing pattern of a token-annotated tree: identities renumbered 0, 1, 2, … in the order of their first
+    occurrence (preorder), so that two trees have the same pattern iff the same places hold the same object"""
+    if ren is None:
+        ren = {}
+    if "s" in t:
+        root = ren.setdefault(t["t"], len(ren))
+        return {"t": root, "s": [None if c is None else _canon_pat(c, ren) for c in t["s"]]}
+    return {"l": t["l"], "t": [ren.setdefault(x, len(ren)) for x in t["t"]]}
+
+
+def _is_shared(case):
+    return "shared" in _dressing(_case_values(case))
+
+
 def _shallow(o):
     """the items of one dictionary object: keys with the identity of mutable values and the value of scalars"""
     return sorted(((_kstr(k), ("id", id(v)) if isinstance(v, _MUTABLE + (tuple,)) else ("v", type(v).__name__, repr(v)))
@@ -893,9 +1266,11 @@ def _written(before, idmap):
     return sorted(idmap[i] for i, (o, sh) in before.items() if _shallow(o) != sh and i in idmap)
 
 
-def _fresh(v):
-    """the Python value of a case value: new, tree-shaped objects at every call"""
-    return _build(v)
+def _fresh(v, mode="real"):
+    """the Python objects of a case value, new at every call: dictionary subclasses where the case says so, and one object
+    for all occurrences of a {"$": "shared"} marker within v (pass a list to share between arguments); mode "tree": no
+    sharing (for the d of update_recursively, whose in-place update of an object reachable twice is outside the statement)"""
+    return _build(v, mode)
 
 
 def _snap(*vs):
@@ -934,7 +1309,7 @@ def _run_impl(case):
     import lena.context as lc
     op = case["op"]
     if op == "pair":
-        a, b = _fresh(case["a"]), _fresh(case["b"])
+        a, b = _fresh([case["a"], case["b"]])
         s0 = _snap(a, b)
         out = {"lv": []}
         idmap = None
@@ -945,6 +1320,15 @@ def _run_impl(case):
             _tok_tree(a, enc, ctr, idmap)
             _tok_tree(b, enc, ctr, idmap)
             before_ab = _shallow_all(a, b)
+        shared = _is_shared(case)
+        if shared:
+            # one object at several places of the arguments: identities by object, a then b (sharing model)
+            enc = _Enc(case)
+            dagmap, dctr = {}, [0]
+            _tok_dag(a, enc, dagmap, dctr)
+            _tok_dag(b, enc, dagmap, dctr)
+            cp = _call(lc.intersection, a)          # (one argument: the deep copy itself)
+            out["copy_pat"] = _canon_pat(_tok_dag(cp["r"], enc, {}, [0])) if "r" in cp else cp
         # the calls with the default level and with a positional level; an argument against itself
         idem = case.get("idem", True)
         if idem:
@@ -972,6 +1356,10 @@ def _run_impl(case):
                 r["tok"] = {"inter": _tok_result(iab["r"], enc, idmap), "diff": _tok_result(dab["r"], enc, idmap)}
                 # which objects of the arguments did intersection / difference change?  (none, one hopes)
                 r["written"] = _written(before_ab, idmap)
+            if shared and "r" in iab and "r" in dab:
+                # which places of the intersection hold the same object; which objects of d1 the difference returns
+                r["pat"] = {"inter": _canon_pat(_tok_dag(iab["r"], enc, {}, [0])),
+                            "diff": _tok_result(dab["r"], enc, dagmap)}
             if "r" in iab and "r" in dab:
                 # freeze the observations before anything is updated (difference may return parts of a)
                 r["iab"] = {"r": copy.deepcopy(iab["r"])}
@@ -988,10 +1376,10 @@ def _run_impl(case):
                     r[name] = "=a"
             out["lv"].append(r)
         out["changed"] = _snap(a, b) != s0
-        d = _fresh(case["a"])
+        d = _fresh(case["a"], "tree")
         if idmap is not None:
             # which objects does update_recursively write to, what do d and other consist of afterwards?
-            o = _fresh(case["b"])
+            o = _fresh(case["b"], "tree")
             mp, ctr = {}, [0]
             _tok_tree(d, enc, ctr, mp)
             _tok_tree(o, enc, ctr, mp)
@@ -1002,6 +1390,11 @@ def _run_impl(case):
         else:
             u = _call(lc.update_recursively, d, b)
         out["upd"] = {"r": d} if "r" in u else u
+        if idem:
+            # d and other are the same object
+            dd = _fresh(case["a"], "tree")
+            u = _call(lc.update_recursively, dd, dd)
+            out["uaa"] = {"r": dd} if "r" in u else u
         return out
     if op == "multi":
         ds = _fresh(case["ds"])
@@ -1014,9 +1407,12 @@ def _run_impl(case):
         out = {"all": _call(lc.intersection, *ds, level=lv)}
         if "r" in out["all"]:
             out["shares"] = _shares(out["all"]["r"], *ds)
-            # what the result consists of (every object must be new) and which argument objects changed (none)
-            out["tok"] = _tok_result(out["all"]["r"], enc, mp)
-            out["written"] = _written(before, mp)
+            if not case.get("dag"):
+                # what the result consists of (every object must be new) and which argument objects changed (none)
+                out["tok"] = _tok_result(out["all"]["r"], enc, mp)
+                out["written"] = _written(before, mp)
+            else:
+                out["pat"] = _canon_pat(_tok_dag(out["all"]["r"], enc, {}, [0]))
         out["default_level"] = _call(lc.intersection, *ds) if lv == -1 else None
         n = len(ds)
         if 2 <= n <= 3:
@@ -1378,7 +1774,16 @@ def _pair_paths(case):
     return [()] + sorted(ps | ext, key=order)[:40]
 
 
+def _share_request(raw_values, e, n, levels):
+    """the arguments as the code under test gets them (one object per shared marker), identities by object"""
+    real = _build(list(raw_values), "real")
+    idmap, ctr = {}, [0]
+    args = [_tok_dag(v, e, idmap, ctr) for v in real]
+    return {"op": "share", "n": n, "levels": levels, "args": args, "c": ctr[0], "falsy": e.falsy()}
+
+
 def model_requests(case):
+    raw = case
     case = _build(case)
     op = case["op"]
     e = _enc(case)
@@ -1386,6 +1791,8 @@ def model_requests(case):
     if op == "pair":
         a, b = e.val(case["a"]), e.val(case["b"])
         reqs = [{"op": "pair", "n": n, "a": a, "b": b, "levels": case["levels"], "falsy": e.falsy()}]
+        if case.get("idem", True):
+            reqs.append({"op": "update", "d": a, "other": a, "uaa": True})
         if case.get("paths"):
             reqs.append({"op": "paths", "d": a, "o": b, "paths": [e.path(p) for p in _pair_paths(case)]})
             ctr = [0]
@@ -1396,6 +1803,8 @@ def model_requests(case):
             td = _tok_tree(case["a"], e, ctr)
             to = _tok_tree(case["b"], e, ctr)
             reqs.append({"op": "mutupd", "d": td, "other": to, "c": ctr[0]})
+        if _is_shared(raw):
+            reqs.append(_share_request([raw["a"], raw["b"]], e, n, case["levels"]))
         return reqs
     if op == "multi":
         ds = [e.val(d) for d in case["ds"]]
@@ -1405,6 +1814,8 @@ def model_requests(case):
         reqs.append({"op": "tokn", "n": n, "level": case["level"], "args": args, "c": ctr[0]})
         if len(ds) == 3:
             reqs.append({"op": "assoc", "n": n, "level": case["level"], "a": ds[0], "b": ds[1], "c": ds[2]})
+        if raw.get("dag") and ds:
+            reqs.append(_share_request(raw["ds"], e, n, [case["level"]]))
         return reqs
     if op == "nested":
         ctr = [0]
@@ -1542,9 +1953,14 @@ def compare(case, res, replies):
     e = _enc(case)
     if op == "pair":
         m = replies[0]
-        mp = replies[1] if len(replies) > 1 else {"r": []}
+        if case.get("idem", True):
+            # update_recursively(d, d): d and other are one object
+            muaa, replies = replies[1], [m] + replies[2:]
+            if "uaa" in res and _obs(e, res["uaa"]) != muaa:
+                return f"update_recursively(d, d) with d = {case['a']}: impl {_obs(e, res['uaa'])} vs model {muaa}"
+        mp = replies[1] if case.get("paths") and len(replies) > 1 else {"r": []}
         a, b = case["a"], case["b"]
-        if len(replies) > 2:
+        if case.get("paths") and len(replies) > 2:
             # identity pattern of the results: new object / which object of d1 (token model)
             for lv, r, mt, ml in zip(case["levels"], res["lv"], replies[2]["r"], m["r"]):
                 # Lean toksV / eraseV on the model's own results against the Python reference of the same notions
@@ -1590,7 +2006,7 @@ def compare(case, res, replies):
                             f"level -1 {unl[key]}")
         if "default" in res and _obs(e, res["default"]["daa"]) != {"r": [None] * len(e.keys)}:
             return f"difference(a, a): impl {_obs(e, res['default']['daa'])} vs model (empty)"
-        if len(replies) > 3 and "mut" in res:
+        if case.get("paths") and len(replies) > 3 and "mut" in res:
             msg = _compare_mut("update_recursively", res["mut"], replies[3], _tok_tree(b, e, [_count_toks(a, e)]))
             if msg:
                 return msg
@@ -1598,6 +2014,26 @@ def compare(case, res, replies):
                 return f"Lean dictToksV gives {replies[3]['dicts']}, the Python reference {_ref_dict_toks(_tok_tree(a, e, [0]))}"
             if "erase" in replies[3] and replies[3]["erase"] != m["upd"]:
                 return f"write-log model value {replies[3]['erase']} differs from the value model {m['upd']}"
+        ms = next((x for x in replies if isinstance(x, dict) and "copy" in x), None)
+        if ms is not None:
+            # arguments with shared objects: the sharing pattern of deepcopy, of the intersection, the objects of the difference
+            if res.get("copy_pat") != _canon_pat(ms["copy"]):
+                return (f"copy.deepcopy of d1 (intersection(d1)): which places hold the same object: impl {res.get('copy_pat')} "
+                        f"vs memoising-copy model {_canon_pat(ms['copy'])}")
+            for lv, r, mt, ml in zip(case["levels"], res["lv"], ms["r"], m["r"]):
+                if mt["ierase"] != ml["iab"]:
+                    return f"level {lv}: sharing model value {mt['ierase']} differs from the value model {ml['iab']}"
+                if "pat" not in r:
+                    continue
+                if r["pat"]["inter"] != _canon_pat(mt["inter"]):
+                    return (f"level {lv}: intersection of arguments with shared objects: which places of the result hold the "
+                            f"same object: impl {r['pat']['inter']} vs sharing model {_canon_pat(mt['inter'])}")
+                if "obj" in mt and r["pat"]["inter"] != _canon_pat(mt["obj"]):
+                    return (f"level {lv}: intersection of arguments with shared objects: impl {r['pat']['inter']} vs the loop "
+                            f"executed as stores into the one object res (interObj2) {_canon_pat(mt['obj'])}")
+                if r["pat"]["diff"] != mt["diff"]:
+                    return (f"level {lv}: objects of the difference (arguments with shared objects): impl {r['pat']['diff']} "
+                            f"vs token model {mt['diff']} (t: identity of an object of d1 / d2, -1: new)")
         da = max([_depth(v) for v in a.values()] + [0])
         if m["da"] != da:
             return f"Lean depthL gives {m['da']}, the Python reference {da}"
@@ -1636,6 +2072,16 @@ def compare(case, res, replies):
             bad = [t for t in res["written"] if t not in mt["log"]]
             if bad:
                 return f"intersection changed the dictionaries {bad} of its arguments; the model's write log is {mt['log']}"
+        ms = next((x for x in replies if isinstance(x, dict) and "copy" in x), None)
+        if ms is not None and "r" in res["all"]:
+            if ms["r"][0]["ierase"] != replies[0].get("r"):
+                return f"sharing model value {ms['r'][0]['ierase']} differs from the value model {replies[0].get('r')}"
+            if res.get("pat") != _canon_pat(ms["r"][0]["inter"]):
+                return (f"intersection(*ds, level={case['level']}) of arguments with shared objects: which places of the result "
+                        f"hold the same object: impl {res.get('pat')} vs sharing model {_canon_pat(ms['r'][0]['inter'])}")
+            if "obj" in ms["r"][0] and res.get("pat") != _canon_pat(ms["r"][0]["obj"]):
+                return (f"intersection(*ds, level={case['level']}) of arguments with shared objects: impl {res.get('pat')} vs the "
+                        f"loop executed as stores into the one object res (interObj2) {_canon_pat(ms['r'][0]['obj'])}")
         if len(case["ds"]) == 3:
             m = replies[2]
             for name in ("ab_c", "a_bc"):
@@ -1839,6 +2285,10 @@ def oracle(case, res):
     msg = _oracle(_build(case), _unz(res))
     if msg is None:
         return None
+    dr = sorted(_dressing([v for v in _case_values(case)]))
+    if dr:
+        # (the message shows the values; which dictionaries are subclasses / one shared object is in the case itself)
+        msg += " [arguments dressed: " + ", ".join(dr) + "; case: " + jdump(case)[:600] + "]"
     for tag, pat in _TAGS:
         if re.search(pat, msg):
             return f"[{tag}] {msg}"
@@ -1936,6 +2386,12 @@ def _oracle(case, res):
                 after = get_path(upd, p)
                 return (f"update_recursively({a}, {b}) gives {upd}: the item at {'.'.join(map(str, p))} is not overwritten by other "
                         f"but changed from {get_path(a, p)!r} to {'nothing (absent)' if after is _NOPATH else repr(after)}")
+        if "uaa" in res:
+            if "e" in res["uaa"]:
+                return f"update_recursively(d, d) raised {res['uaa']['e']} for d = {a}"
+            uaa = res["uaa"]["r"]
+            if not contained(-1, a, uaa):
+                return f"update_recursively(d, d) with d = {a} gives {uaa}, which does not contain other"
         # (update_recursively documents nothing about `other`, and difference warns that it may return parts of d1:
         # whether `other` / d1 are changed by the update is recorded in the result but is outside the statement)
         return None
@@ -2160,14 +2616,16 @@ def _oracle(case, res):
 def nontrivial(case, res):
     op = case["op"]
     if op == "pair":
-        return bool(case["a"]) and bool(case["b"]) and case["a"] != case["b"]
+        a, b = _strip(case["a"]), _strip(case["b"])
+        return bool(a) and bool(b) and a != b
     if op == "multi":
-        ds = case["ds"]
+        ds = [_strip(d) for d in case["ds"]]
         return len(ds) >= 2 and all(ds) and any(d != ds[0] for d in ds)
     if op == "nested":
-        return case["key"] in case["d"]
+        return case["key"] in _strip(case["d"])
     if op == "ustr":
-        return isinstance(case["d"], dict) and bool(case["d"]) and isinstance(case["other"], (str, dict)) and bool(case["other"])
+        d, o = _strip(case["d"]), _strip(case["other"])
+        return _isd(d) and bool(d) and (isinstance(o, str) or _isd(o)) and bool(o)
     for name in ("values", "ctxs", "new"):
         if name in case:
             ds = case[name]
@@ -2196,6 +2654,12 @@ def _has_falsy_leaf(v):
 def classify(case, res):
     if isinstance(res, dict) and res.get("__timeout__"):
         return [case["op"] + ":timeout"]
+    dress = ["dressed:" + ("shared-object" if k == "shared" else "dict-subclass:" + k)
+             for k in sorted(_dressing(_case_values(case)))]
+    return _classify(case, res) + ([case["op"] + ":" + x for x in dress] if dress else [])
+
+
+def _classify(case, res):
     case = _build(case)
     res = _unz(res)
     op = case["op"]
@@ -2208,8 +2672,6 @@ def classify(case, res):
             labels.append("pair:diff-keeps-falsy-or-empty")
         if any(isinstance(x, (tuple, set, frozenset, float, _Obj, bytes)) for x in _all_leaves(a)):
             labels.append("pair:non-json-leaf")
-        if isinstance(a, _DictSub):
-            labels.append("pair:dict-subclass")
         if any(isinstance(k, int) for k in a):
             labels.append("pair:int-keys")
         return labels
@@ -2248,14 +2710,18 @@ def signature(case, failure):
 def _sub_values(v):
     """smaller variants of a nested dictionary (case form)"""
     if not _isd(v):
-        if isinstance(v, dict) and v.get("$") == "dictsub":
+        if isinstance(v, dict) and (v.get("$") == "shared" or v.get("$") in _DICT_KINDS):
+            # first without the dressing, then smaller inside it
             yield v["v"]
+            if _isd(v["v"]) and v["$"] != "shared":          # (all occurrences of a shared object carry the same value)
+                for s in _sub_values(v["v"]):
+                    yield dict(v, v=s)
         return
     for k in list(v):
         c = dict(v)
         del c[k]
         yield c
-        if _isd(v[k]):
+        if _isd(v[k]) or (isinstance(v[k], dict) and (v[k].get("$") == "shared" or v[k].get("$") in _DICT_KINDS)):
             yield dict(v, **{k: 1})
             for s in _sub_values(v[k]):
                 yield dict(v, **{k: s})
@@ -2327,13 +2793,15 @@ LEVEL_TEXT = ("Lean 4 theorems about a transcribed model of intersection/differe
               "nested dictionaries of any width and depth, any leaf type with decidable equality and every level (no bound), "
               "including which objects are created, shared and written to (token and write-log models); the model is tied to "
               "/repo by a correspondence check (exhaustive over small alphabets up to depth 3 with two or three scalar leaves, "
-              "sampled over 3 keys / depth 3-6 / a palette with tuples, sets, floats, objects, integer keys, dict subclasses) and "
+              "sampled over 3 keys / depth 3-6 / a palette with tuples, sets, floats, objects, integer keys; dictionaries of five dict "
+              "subclasses at any depth and arguments with one object at several places, systematically over small universes) and "
               "the laws themselves are evaluated on the real code as a direct oracle.  At the finite levels 0, 1, 2, … the "
               "lattice theorems are relative to the level-indexed containment read off the code's docstring.")
 LEVEL_NOTE = ("Trusted: Lean kernel (+ propext, Classical.choice, Quot.sound), the hand transcription validated by the "
               "correspondence run (values, exceptions, id() pattern, changed objects), the slot-vector reading of dictionaries, "
-              "deepcopy as identity on values / fresh objects per occurrence, reflexive deepcopy-stable leaf equality, "
-              "tree-shaped disjoint arguments, the JSON protocol.  'Does not change an argument' is a theorem about the write "
+              "deepcopy as identity on values / fresh objects per occurrence (token model, tree-shaped disjoint arguments) or per "
+              "object (sharing model of intersection, arguments with shared objects), reflexive deepcopy-stable leaf equality, "
+              "one kind of dictionary (isinstance(., dict), order-insensitive ==), the JSON protocol.  'Does not change an argument' is a theorem about the write "
               "log of the transcription (every store of intersection / difference goes into a new object; update_recursively "
               "writes only into d's dictionaries; update_nested into d and one dictionary of other) and is checked on the real "
               "code object by object; that the transcription has no further stores is part of the trusted reading.")
